@@ -4,6 +4,7 @@ Property theorems only (proofs in `SchedLemmasC31`, from C01's `submit_sound` an
 of a sequential task, which is an explicit decidable hypothesis checked by the driver on every real graph).
 -/
 import CylcModel.SchedLemmasC31
+import CylcModel.SchedEnvC02
 namespace CylcModel.C31
 open CylcModel.Sched
 
@@ -18,24 +19,16 @@ theorem seq_order (g : Graph) (hwf : g.wf = true) (n : String) (hshape : g.seqSh
         q < g.start ∨ completedB s ⟨q, n, "succeeded"⟩ = true :=
   seq_launch_after_prev hwf hshape ops
 
-/-- the instance `q` whose success justified the launch was itself launched under the same rule, and so on down
-the chain: the `succeeded` record of `q` belongs to an instance of the spawn closure (`C01.submit_closed`) whose
-own prerequisites were satisfied when it was launched.  What is recorded complete is never forgotten
-(`C01.completed_monotone`), so the order property holds for the whole run. -/
-theorem seq_order_chain (g : Graph) (hwf : g.wf = true) (ops : List Op) :
-    ∀ s ∈ run g ops, ∀ a, completedB s a = true →
-      (∃ z ∈ s.pool, z.pt = a.pt ∧ z.name = a.task) ∨ (∃ h ∈ s.hist, h.pt = a.pt ∧ h.name = a.task) :=
-  fun _ _ _ h => completedB_key h
-
 /-- **seq_no_overlap, full statement — NOT proved**: under the environment assumption (`envOK`: a failed
 job-submission is reported only for an instance that is still preparing; jobs never send "submit-failed") and
 for job messages carrying the submit number of a real launch, no two instances of a sequential task are
 preparing, submitted or running in the same state.  It needs the status-regression guards of message
-processing (C09/C10: a `succeeded` instance is not made active again), which the atomic actions do not carry.
+processing (C09/C10: a `succeeded` instance is not made active again) and the pairing of "output complete" with
+"status succeeded" inside one message, which the atomic actions do not carry.
 The judge checks it on every observation of every real run. -/
 def seq_no_overlap_full : Prop :=
-  ∀ (g : Graph) (n : String) (ops : List Op), g.wf = true → g.seqShape n = true → envOK g ops = true →
-    (∀ op ∈ ops, match op with | .msg _ _ sn _ => sn ≥ 1 | _ => True) →
+  ∀ (g : Graph) (n : String) (ops : List Op), g.wf = true → g.noSui = true → g.seqShape n = true →
+    envOK2 g ops = true →
     ∀ s ∈ run g ops, ∀ x ∈ s.pool, ∀ y ∈ s.pool, x.name = n → y.name = n →
       (x.status = .preparing ∨ x.status.isActive = true) → (y.status = .preparing ∨ y.status.isActive = true) →
       x.pt = y.pt
